@@ -99,6 +99,8 @@ def replay_history(w, h, rng, from_file=False):
 def same_small(a, b):
     if a['k'] != b['k']:
         return False
+    if a['k'] == 'bool':
+        return a['b'] == b['b']
     return a['k'] != 'num' or a['n'] == b['n']
 
 
@@ -162,6 +164,11 @@ def gen(run, w):
                  workers=2, timeout=1500, tag='Gen_C04_far')
     hists += [rec['h'] for rec in rf.records]
     run.exhaustive['batch sequences: <= 3 single-write batches over two out-of-range cells and one constant'] = True
+    # a written value keeps its type: 1 / TRUE and 0 / FALSE written in turn to one constant (dependants: C1 = A1+B1, D1, S2!A1)
+    rb = run.tlc('Gen_C04', ['SPECIFICATION GSpec', 'CONSTANTS WCoords = {"S1A1"} Values = {0,1,1000,1001} MaxBatch = 1 Rounds = 3'],
+                 workers=2, timeout=1500, tag='Gen_C04_types')
+    hists += [rec['h'] for rec in rb.records]
+    run.exhaustive['batch sequences: <= 3 single writes of 0 / 1 / FALSE / TRUE to one constant'] = True
     if not run.quick:
         r3 = run.tlc('Gen_C04', ['SPECIFICATION GSpec', f'CONSTANTS WCoords = {COORDS_Q} Values = {{2,4}} MaxBatch = 1 Rounds = 4'],
                      workers=2, timeout=1500, tag='Gen_C04_r4')
